@@ -264,13 +264,14 @@ class Ctx:
         thms = re.findall(r"^\s*(?:Theorem|Corollary)\s+([A-Za-z0-9_']+)", src, re.M)
         with Lock("coq"):
             coq_project()
+        with Lock("coq-" + self.prop):
             for ext in (".vo", ".glob", ".vok", ".vos"):
                 try:
                     os.remove(pf[:-2] + ext)
                 except OSError:
                     pass
             targets = ["props/%s.vo" % self.prop] + list(extra_targets)
-            rc, out = sh("timeout %d make -k -j16 %s" % (timeout, " ".join(targets)), cwd=COQ)
+            rc, out = sh("timeout %d make -k -j8 %s" % (timeout, " ".join(targets)), cwd=COQ)
         self.coq_log = out
         ok = (rc == 0) and os.path.exists(pf[:-2] + ".vo")
         # parse Print Assumptions blocks: they follow each theorem in order
@@ -306,7 +307,8 @@ class Ctx:
         os.makedirs(out_dir, exist_ok=True)
         with Lock("coq"):
             coq_project()
-            rc, out = sh("timeout %d make -k -j16 extract/Extract%s.vo" % (timeout, self.prop), cwd=COQ)
+        with Lock("coq-" + self.prop):
+            rc, out = sh("timeout %d make -k -j8 extract/Extract%s.vo" % (timeout, self.prop), cwd=COQ)
             if rc != 0:
                 self.log("extraction build failed:\n" + out[-1500:])
                 self.broken_tie("extraction", "model no longer compiles/extracts: " + out[-300:])
